@@ -149,13 +149,19 @@ class Impl:
     st = snap[0]
     if not hasattr(st, 'insert_position'):
       return {}
-    ip, sp = np.asarray(st.insert_position), np.asarray(st.sample_position)
-    d = np.asarray(st.data)
+    try:
+      ip, sp = np.asarray(st.insert_position), np.asarray(st.sample_position)
+      d = np.asarray(st.data)
+    except Exception as e:  # e.g. a state whose buffers were invalidated by the call it was passed to: an outcome, reported by
+      return {'unreadable': f'{type(e).__name__}'}      # the observable checks (size of the earlier state, determinism)
     return {'ip': ip.tolist(), 'sp': sp.tolist(), 'hsize': snap[1].get('_size'),
             'ids': (d[..., 0]).astype(int).tolist()}
 
   def key_bytes(self, snap):
-    return np.asarray(snap[0].key).tobytes()
+    try:
+      return np.asarray(snap[0].key).tobytes()
+    except Exception as e:  # pylint: disable=broad-except
+      return f'unreadable {type(e).__name__}'.encode()
 
 
 # ---------------------------------------------------------------- spec -> code
